@@ -293,26 +293,36 @@ def kmedoidsIterations (D : Table) (n : Nat) (nIters : Nat) (s : St) (props : Op
     (orc : List Nat) : Except Err Run :=
   if nIters = 0 then .error .unboundLocal else sweepsFrom D n props nIters s orc
 
-/-- `kmedoids.kmedoids` after `_kmedoids_inputs_tree`: center indices given, or inferred from
-`(assignments, distances)` by `find_cluster_centers`; arrays given, or computed by
-`assign_to_nearest_center(X, X[cluster_center_inds])`; then
-`assert np.all(distances[cluster_center_inds] < 0.001)`.  A cold start passes the indices the RNG
-loop drew as `inds`. -/
+/-- `_kmedoids_inputs_tree`, center indices: given, or inferred from `(assignments, distances)` by
+`find_cluster_centers`.  A cold start passes the indices the RNG loop drew as `inds`. -/
+def kmedoidsCenters (n : Nat) (inds : Option (List Nat)) (ad : Option Arr) : Except Err (List Nat) :=
+  match inds, ad with
+  | some ci, _ => .ok ci
+  | none, some a => match findClusterCenters n a with
+    | some ci => .ok ci
+    | none => .error .assertion
+  | none, none => .error .notModelled
+
+/-- `_kmedoids_inputs_tree`, arrays: given, or `assign_to_nearest_center(X, X[cluster_center_inds])` -/
+def startArr (D : Table) (n : Nat) (ci : List Nat) : Option Arr → Arr
+  | some a => a
+  | none => assignNearest D n ci
+
+/-- arrays as above, then `assert np.all(distances[cluster_center_inds] < 0.001)` -/
+def kmedoidsStart (D : Table) (n : Nat) (ci : List Nat) (ad : Option Arr) : Except Err St :=
+  if ci.any (fun c => decide (n ≤ c)) then .error .indexError      -- X[cluster_center_inds] / distances[…]
+  else
+    let a := startArr D n ci ad
+    if a.fresh = false ∧ ci.any (fun c => !decide (a.dist c < 1/1000)) then .error .assertion
+    else .ok { arr := a, ctrInds := ci, ctrFrames := ci }
+
+/-- `kmedoids.kmedoids`: input normalisation, then the sweeps -/
 def kmedoids (D : Table) (n : Nat) (nIters : Nat) (inds : Option (List Nat)) (ad : Option Arr)
     (props : Option (List Nat)) (orc : List Nat) : Except Err Run := do
   if inds = some [] then throw .indexError            -- cluster_center_inds[0]
-  let ci ← match inds, ad with
-    | some ci, _ => pure ci
-    | none, some a => match findClusterCenters n a with
-      | some ci => pure ci
-      | none => throw .assertion
-    | none, none => throw .notModelled
-  if ci.any (fun c => decide (n ≤ c)) then throw .indexError    -- X[cluster_center_inds] / distances[…]
-  let a := match ad with
-    | some a => a
-    | none => assignNearest D n ci
-  if a.fresh = false ∧ ci.any (fun c => !decide (a.dist c < 1/1000)) then throw .assertion
-  kmedoidsIterations D n nIters { arr := a, ctrInds := ci, ctrFrames := ci } props orc
+  let ci ← kmedoidsCenters n inds ad
+  let s ← kmedoidsStart D n ci ad
+  kmedoidsIterations D n nIters s props orc
 
 /-- `hybrid.hybrid`: k-centers, then (if `n_iters > 0`) the sweeps on its state with random proposals -/
 def hybrid (D : Table) (n : Nat) (nClusters : Option Nat) (cutoff : Rat) (init : Option (List Nat))
